@@ -7,7 +7,8 @@ Require Import ZifyBool ZifyN ZifyNat.
 Require Import UV.C07.Model UV.C07.Proofs UV.C07.Replay.
 Local Open Scope Z_scope.
 
-Definition sw_cfg (c : cfg) : Prop := forall f, q_depth (trig_of c f) = None /\ q_hide (trig_of c f) = false.
+Definition sw_cfg (c : cfg) : Prop :=
+  (forall f, q_depth (trig_of c f) = None /\ q_hide (trig_of c f) = false) /\ loc_free_all c.
 
 Fixpoint heightZ (n : call) : Z := match n with Call _ _ _ ks => 1 + fold_right Z.max 0 (map heightZ ks) end.
 Definition fheightZ (l : list call) : Z := fold_right Z.max 0 (map heightZ l).
@@ -92,11 +93,11 @@ Proof.
   assert (Hfk : 0 <= fheightZ ks) by (unfold fheightZ; clear; induction ks; cbn; lia).
   destruct s as [b a i o fd en dd ds stt]. destruct G as (Gs & Gi & Go & Grd & Gf).
   cbn [started inc outc fdepth] in Gs, Gi, Go, Gf. subst stt.
-  destruct (Hsw f) as [Hqd Hqh].
+  destruct Hsw as [Hsw0 Hlf]. destruct (Hsw0 f) as [Hqd Hqh].
   cbn [flat]. rewrite run_steps_cons.
   unfold sw_one. cbn [outc inc enabled vis_sw]. rewrite !(inner_is_list c).
   unfold std_step at 1. unfold std_body at 1. unfold fstack_entry, consume, top_above, set_stacks, stack_count.
-  zc. rewrite Hqd, Hqh.
+  zc. rewrite Hqd, Hqh, (loc_free_hidden c f Hlf).
   destruct (o >? 0) eqn:Eo.
   - sw_kids_exit HK (rd + 1). rewrite Eo in *. cbn [fst snd] in *.
     cbn [run_steps]. eexists _, _. split; [reflexivity|]. rewrite ?app_nil_r; cbn [app]; rewrite ?app_nil_r, M2.
